@@ -887,7 +887,7 @@ def rlw_replay_job(job):
     from rex.graph import Graph
 
     from .. import compiled, gen
-    from ..probes import ProbeOut
+    from ..probes import ProbeOut, probe_out
 
     L = job["L"]
     cfg = dict(nodes=[dict(name="world", nid=0, period=2, delay=1, cdist=[1], advance=False, sched="F", p=1),
@@ -913,7 +913,7 @@ def rlw_replay_job(job):
             return jnp.array([gs.step]).astype(jnp.float32)
 
         def get_output(self, gs, action):
-            return ProbeOut(nid=jnp.int32(1), eps=jnp.int32(gs.eps), seq=jnp.int32(gs.seq["agent"]), h=jnp.round(action[0] * 1000).astype(jnp.int32))
+            return probe_out(1, gs.eps, gs.seq["agent"], jnp.round(action[0] * 1000).astype(jnp.int32))
 
         def get_reward(self, gs, action):
             return gs.aux["tab_r"][gs.aux["clock"]]
